@@ -43,6 +43,38 @@ fn run_bin(bin: &str, args: &[&str], stdin: &[u8], merged: bool) -> Proc {
     }
 }
 
+/// The same command with colours forced on (as on a terminal): standard output and standard error with the ANSI colour
+/// sequences (ESC [ ... m) taken out again.
+fn run_coloured_stripped(bin: &str, args: &[&str], stdin: &[u8]) -> (String, String) {
+    let mut cmd = Command::new(bin);
+    cmd.args(args).env_remove("NO_COLOR").env("CLICOLOR_FORCE", "1").stdin(Stdio::piped()).stdout(Stdio::piped()).stderr(Stdio::piped());
+    let mut child = cmd.spawn().expect("cannot start the rrss binary");
+    {
+        let mut si = child.stdin.take().unwrap();
+        let _ = si.write_all(stdin);
+    }
+    let out = child.wait_with_output().expect("cannot wait for rrss");
+    let strip = |b: &[u8]| -> String {
+        let s = String::from_utf8_lossy(b).into_owned();
+        let mut r = String::with_capacity(s.len());
+        let mut it = s.chars().peekable();
+        while let Some(c) = it.next() {
+            if c == '\u{1b}' && it.peek() == Some(&'[') {
+                it.next();
+                for d in it.by_ref() {
+                    if d == 'm' {
+                        break;
+                    }
+                }
+            } else {
+                r.push(c);
+            }
+        }
+        r
+    };
+    (strip(&out.stdout), strip(&out.stderr))
+}
+
 /// Runs `rrss exec FILE` with stdin held open: does any standard-output byte arrive BEFORE any input is provided?
 /// (a `say` writes its line before the next statement - here a `listen` - runs).  Then the input is sent and the run ends.
 fn prompt_arrives_first(bin: &str, file: &str, stdin: &[u8]) -> bool {
@@ -199,6 +231,12 @@ pub fn record(args: &[String]) -> i32 {
             if p3.stdout != p1.stdout || p3.stderr != p1.stderr || p3.code != p1.code {
                 // a second process must behave identically (C10 across processes)
                 emit_to(&mut f, json!({"usage":"ok","file":"ok","cmd":cmd,"lib":{"k":"nondeterministic"}}), &p3, &p2);
+            }
+            // on a terminal the same text arrives, in colour
+            let (cs, ce) = run_coloured_stripped(&bin, &[cmd, &file], &stdin);
+            if cs != p1.stdout || ce != p1.stderr {
+                let c = Proc { stdout: cs, stderr: ce, code: p1.code };
+                emit_to(&mut f, json!({"usage":"ok","file":"ok","cmd":cmd,"lib":{"k":"colour-changes-text"}}), &c, &p2);
             }
             emit_to(&mut f, json!({"usage":"ok","file":"ok","cmd":cmd,"lib":lib}), &p1, &p2);
         }
